@@ -10,6 +10,10 @@
 (*                                          destination pixel that samples (x0+i, y0+j)        *)
 (*   FetchWide mode role x0 y0 n rows max out    the same through the wide pipeline; out[j][i] =   *)
 (*                                          channel numerators <<a,r,g,b>> over max           *)
+(*   FetchWin  role op dfmt mask before x0 y0 n rows dx wins out   SRC / OVER composite into a      *)
+(*                                          destination of format dfmt filled with `before`; only the  *)
+(*                                          windows wins = [i0, j0, wn, hn] of the destination are     *)
+(*                                          recorded: out[k][j][i] raw pixel of window k               *)
 (* Every Fetch must show, pixel by pixel, the reference value of Sample.tla (projective         *)
 (* transforms: at some admissible position).                                                    *)
 EXTENDS Sample, TraceIO
@@ -24,12 +28,12 @@ ObsPix(o) == <<o[1] \div 256, o[1] % 256, o[2] \div 256, o[2] % 256>>
 
 TReset ==
     /\ l <= TraceLen /\ TraceLog[l].e = "Reset"
-    /\ SetImage([fmt |-> "a8r8g8b8", w |-> 1, h |-> 1, pix |-> <<<< <<0, 0>> >>>>])
+    /\ SetImage(MkImage("a8r8g8b8", 1, 1, <<<< <<0, 0>> >>>>))
     /\ l' = l + 1
 
 TImage ==
     /\ l <= TraceLen /\ TraceLog[l].e = "Image"
-    /\ LET ev == TraceLog[l] IN SetImage([fmt |-> ev.fmt, w |-> ev.w, h |-> ev.h, pix |-> ev.pix])
+    /\ LET ev == TraceLog[l] IN SetImage(MkImage(ev.fmt, ev.w, ev.h, ev.pix))
     /\ l' = l + 1
 
 TTransform ==
@@ -64,7 +68,19 @@ TFetchWide ==
     /\ LET ev == TraceLog[l] IN FetchWide(ev.x0, ev.y0, ev.n, ev.rows, ev.out, ev.max)
     /\ l' = l + 1
 
+(* op "over" shows the samples only on a cleared destination (before = 0); mask "solid" / "a8" are   *)
+(* all-ones masks.  A request outside FetchFar's arithmetic domain is not judged: noted, so that the  *)
+(* orchestrator can tell a vacuous suite from a judged one.                                           *)
+TFetchWin ==
+    /\ l <= TraceLen /\ TraceLog[l].e = "FetchWin"
+    /\ LET ev == TraceLog[l] IN
+       /\ ev.op \in {"src", "over"} /\ ev.dfmt \in {"a8r8g8b8", "x8r8g8b8", "r5g6b5"}
+       /\ (ev.op = "over" => ev.before = <<0, 0>>) = TRUE
+       /\ (FarInDomain(transform, ev.x0, ev.y0, ev.n, ev.rows) \/ PrintT(<<"VF:policy", "far-skip", l>>)) = TRUE
+       /\ FetchFar(ev.dfmt, ev.x0, ev.y0, ev.n, ev.rows, ev.wins, ev.out)
+    /\ l' = l + 1
+
 TInit == Init /\ l = 1
-TNext == TReset \/ TImage \/ TTransform \/ TFilter \/ TRepeat \/ TFetch \/ TFetchWide
+TNext == TReset \/ TImage \/ TTransform \/ TFilter \/ TRepeat \/ TFetch \/ TFetchWide \/ TFetchWin
 TSpec == TInit /\ [][TNext]_<<svars, l>>
 =============================================================================
